@@ -17,6 +17,7 @@
 From BCL Require Import Model.Cli Proofs.CliProofs.
 Open Scope N_scope.
 From BCL Require Import Model.Api Model.DumpLoad Model.CliRun Proofs.CliRunProofs.
+From BCL Require Import Proofs.ParserTotal Proofs.SizeBounds.
 
 Theorem C18_flag_order : forall l1 l2 file,
   Forall simple_flag l1 -> Forall simple_flag l2 -> letters l1 = letters l2 ->
@@ -216,6 +217,36 @@ Theorem C18_never_model_gives_up : forall a w src what,
   rr_res (execute (pr_prog (parse_whole (input_name (a_file a)) src)) (a_trace a) (a_stats a)) = VPanic PExcluded.
 Proof. first [exact CliRunProofs.never_model_gives_up | apply CliRunProofs.never_model_gives_up]. Qed.
 Print Assumptions C18_never_model_gives_up.
+
+Theorem C18_bdump_then_bload_input : forall a w src f b a' w',
+  open_file w (a_file a) = Some src -> a_bload a = false ->
+  nlen src < 2^56 -> nlen (input_name (a_file a)) < 2^64 ->
+  cr_written (cli_run a w) = Some (f, b) ->
+  a_bload a' = true -> a_bdump a' = false -> a_file a' = f -> open_file w' f = Some b ->
+  a_trace a' = a_trace a -> a_stats a' = a_stats a -> a_result a' = a_result a ->
+  let pr := parse_whole (input_name (a_file a)) src in
+  let g := pr_prog pr in
+  let rr := execute g (a_trace a) (a_stats a) in
+  let r := cli_run a w in
+  let r' := cli_run a' w' in
+  (a_bdump a = true /\ w_target w (a_bdumpFile a) = TgOk /\ f = a_bdumpFile a /\ pr_ok pr = true /\
+   dump (parts_of_prog g) = Ok b /\ load_bytes b = Ok (parts_of_prog g)) /\
+  cr_stdout r = dis_lines (a_disasm a) g ++ ps_lines (a_stats a) pr ++ rr_out rr /\
+  cr_stdout r' = dis_lines (a_disasm a') g ++ rr_out rr /\
+  cr_status r' = cr_status r /\ cr_err r' = cr_err r /\ cr_result r' = cr_result r /\
+  cr_warnings r' = cr_warnings r /\ cr_lfs r' = cr_lfs r /\ cr_written r' = None.
+Proof. first [exact SizeBounds.bdump_then_bload_input | apply SizeBounds.bdump_then_bload_input]. Qed.
+Print Assumptions C18_bdump_then_bload_input.
+
+Theorem C18_never_model_gives_up_input : forall a w src what,
+  open_file w (a_file a) = Some src -> a_bload a = false ->
+  nlen src < 2^56 -> nlen (input_name (a_file a)) < 2^64 ->
+  cr_err (cli_run a w) = Some (EModel what) ->
+  what = bs "vm panic site" /\
+  pr_ok (parse_whole (input_name (a_file a)) src) = true /\
+  rr_res (execute (pr_prog (parse_whole (input_name (a_file a)) src)) (a_trace a) (a_stats a)) = VPanic PExcluded.
+Proof. first [exact SizeBounds.never_model_gives_up_input | apply SizeBounds.never_model_gives_up_input]. Qed.
+Print Assumptions C18_never_model_gives_up_input.
 
 Example C18_example :
   Cli.parse_args [bs "-dts"; bs "x.bcl"] = Cli.parse_args [bs "x.bcl"; bs "-s"; bs "--trace"; bs "-d"]
